@@ -77,10 +77,27 @@ Definition op_reach_closed (ct : list cls) (o : op) : bool :=
   | _ => true
   end.
 
+(* F16b: every unstructure_to_dict of the case gives, in the state it is run in, what a converter
+   without history gives *)
+Definition guard_F16b (tb : tables) (ct : list cls) (ops : list op) : bool :=
+  let stepf := step (look (tb_b64dec tb))
+                    (fun b => match alookup b (tb_b64enc tb) with Some s => s | None => [] end)
+                    (look (tb_dt tb)) (look (tb_date tb)) (look (tb_uuid tb)) (look (tb_time tb)) (look (tb_int tb))
+                    (look (tb_float tb)) (look_str (tb_str tb)) ct in
+  (fix go (st : state) (ops : list op) : bool :=
+     match ops with
+     | [] => true
+     | o :: r => let (st', b) := stepf st o in
+                 match o with
+                 | OpUnstructure _ => obs_eqb b (snd (stepf st0 o))
+                 | _ => true
+                 end && go st' r
+     end) st0 ops.
+
 Definition guards (c : c16_in) : list bool :=
   match c with
-  | InConv _ ct ops => [true; true; forallb (op_reach_closed ct) ops]
-  | InSer h r => [guard_F16a h r; true; true]
+  | InConv tb ct ops => [true; true; forallb (op_reach_closed ct) ops; guard_F16b tb ct ops]
+  | InSer h r => [guard_F16a h r; true; true; true]
   end.
 
 Definition code16 (c : c16_in * c16_obs) : N :=
